@@ -77,9 +77,11 @@ class Stats:
             h = h64(key)
             fresh = h not in self.nontrivial
             self.nontrivial.add(h)
+            if fresh:
+                self._fresh = getattr(self, "_fresh", 0) + 1
             if fresh and sample is not None and len(self.samples) < self.MAX_SAMPLES:
-                # spread samples: keep the 1st, 10th, 100th, 1000th distinct case
-                if len(self.nontrivial) in (1, 10, 100, 1000):
+                # spread samples: keep the 1st, 10th, 100th, 1000th distinct case seen through case()
+                if self._fresh in (1, 10, 100, 1000):
                     self.samples.append(sample)
 
     def to_dict(self):
